@@ -351,6 +351,11 @@ func ruleR062(c *Ctx) {
 							c.OK(key, sel.Pos(), "%s of a field of a list that was just created (by a private constructor) and is not shared yet", kind)
 							return true
 						}
+						// created by a constructor that returns a list of its own (NewListFromIterable)
+						if la := c.listAnchors(); len(la.missing) == 0 && returnsFreshList(c, la, Callee(info, call), 0) && !c.escapesBefore(info, fn, info.ObjectOf(id), sel) {
+							c.OK(key, sel.Pos(), "%s of a field of a list that a constructor has just returned and that is not shared yet", kind)
+							return true
+						}
 					}
 				}
 			}
